@@ -10,19 +10,19 @@ Init == /\ cfg \in Cfgs /\ val = "unset" /\ last = [op |-> "init"] /\ depth = 0
 Do(op, v) ==
   LET r == Apply(op, cfg, val, v, regs) IN
   /\ val' = r.val
-  /\ regs' = RegsAfter(op, regs, v)
+  /\ regs' = RegsAfterCalls(op, regs, v, r.calls)
   /\ mat' = (mat \/ (op = "reg" /\ v \in TraitLevel))       \* the trait's own notifier list, once created, stays
   /\ last' = [op |-> op, v |-> v, cfg |-> cfg, pre |-> val, post |-> r.val, exc |-> r.exc, calls |-> r.calls, regs |-> regs, mat |-> mat]
   /\ depth' = depth + 1 /\ UNCHANGED cfg
 Next == depth < MaxDepth /\
-        \/ \E v \in Tokens : Do("assign", v) \/ Do("setq", v) \/ Do("setq2", v)
+        \/ \E v \in Tokens : Do("assign", v) \/ Do("assign1", v) \/ Do("setq", v) \/ Do("setq2", v)
         \/ Do("read", "none") \/ Do("delete", "none")
         \/ ~AllRegistered /\ \E m \in Dynamic : IF m \in regs THEN Do("unreg", m) ELSE Do("reg", m)
 Spec == Init /\ [][Next]_vars
 
 \* ---- C02 as TLC decides it
 Reg(m) == Registered(cfg, last.regs, m)
-IsAssign == last.op = "assign" /\ last.exc = "" /\ cfg.kind = "trait"
+IsAssign == last.op \in {"assign", "assign1"} /\ last.exc = "" /\ cfg.kind = "trait"
 \* every registered handler is called exactly once iff the assignment is a change in the property's sense; nobody else is
 ExactlyOnce == IsAssign =>
   \A m \in Mechs : Len(last.calls[m]) = (IF Reg(m) /\ IsChange(cfg.mode, Readable(last.pre), last.v) THEN 1 ELSE 0)
@@ -35,7 +35,7 @@ UnregisteredSilent == last.op # "init" => \A m \in Mechs : ~Reg(m) => last.calls
 RejectedSilent == last.op # "init" /\ last.exc # "" /\ last.op # "setq2" => last.post = last.pre /\ last.calls = NoCalls
 QuietSilent == last.op \in {"setq", "setq2", "reg", "unreg"} => last.calls = NoCalls
 DefaultReadSilent == last.op = "read" => last.calls = NoCalls
-EventAlways == last.op = "assign" /\ cfg.kind = "event" /\ last.exc = "" =>
+EventAlways == last.op \in {"assign", "assign1"} /\ cfg.kind = "event" /\ last.exc = "" =>
                  \A m \in Mechs : last.calls[m] = (IF Reg(m) THEN <<<<"undef", last.v>>>> ELSE <<>>)
 \* the dispatch guard of the code never hides a registered handler
 GuardTransparent == \A m \in Mechs : Registered(cfg, regs, m) => HasNotifiers(cfg, regs)
